@@ -1300,7 +1300,8 @@ impl Cluster {
             .app
             .applied
             .min(raw.raft.raft_log.applied)
-            .min(slot.dur.hs.commit)
+            // (not bounded by the stored HardState.commit: the commit index of a LightReady need not be written, so
+            //  the stored value may lag for ever; what the application has applied is committed)
             .min(slot.dur.last_index());
         if s == 0 || s <= slot.dur.trunc_index || s < slot.app.sm_base {
             return None;
